@@ -11,6 +11,7 @@ import (
 	"kmipverif/simrt"
 
 	"github.com/ovh/kmip-go"
+	"github.com/ovh/kmip-go/kmipserver"
 	"github.com/ovh/kmip-go/ttlv"
 )
 
@@ -25,6 +26,8 @@ type C15Sc struct {
 	Direct bool      `json:"direct"` // concurrent HandleRequest calls on one executor instead of connections through the server
 	Conns  []C15Conn `json:"conns"`
 	Chunk  int       `json:"chunk,omitempty"`
+	// WrapMw: transparent message and batch-item middlewares that hand a wrapped context on are installed
+	WrapMw bool `json:"wrap_mw,omitempty"`
 }
 
 var c15Actions = []string{"pr", "pw", "pr,pw", "pw,pr", "pc", "pg", "pw,et", "pw,ps", "y2,pr", "pr,y2,pw,y1,pr", "pw,y3,pr", "y1,pg", "pc,pr", "pw,pc,pr", "ok", "et"}
@@ -47,6 +50,7 @@ func genC15(g *simrt.Tape, tier string) any {
 		sc.Conns = append(sc.Conns, cn)
 	}
 	sc.Chunk = []int{simnet.ChunkMax, simnet.ChunkRandom}[g.Draw(2)]
+	sc.WrapMw = g.Draw(3) == 0
 	return sc
 }
 
@@ -141,6 +145,17 @@ func execC15(x *X, scAny any) {
 	sc := scAny.(*C15Sc)
 	s := x.S
 	w := newServerWorld(x)
+	if sc.WrapMw {
+		type k1 struct{}
+		type k2 struct{}
+		w.exec.Use(func(next kmipserver.Next, ctx context.Context, msg *kmip.RequestMessage) (*kmip.ResponseMessage, error) {
+			return next(context.WithValue(ctx, k1{}, "msg-mw"), msg)
+		})
+		w.exec.BatchItemUse(func(next kmipserver.BatchItemNext, ctx context.Context, bi *kmip.RequestBatchItem) (*kmip.ResponseBatchItem, error) {
+			simrt.Yield("item-mw")
+			return next(context.WithValue(ctx, k2{}, "item-mw"), bi)
+		})
+	}
 	done := 0
 	total := len(sc.Conns)
 	if sc.Direct {
